@@ -128,6 +128,26 @@ def step_terms(case, with_reload=True, with_cut=True, expect_fail=False):
                 cnat(ka), cnat(kb),
                 clist([cN(KIND[x]) for x in ex.get("sync_a", [])]),
                 clist([cN(KIND[x]) for x in ex.get("sync_b", [])]))
+        elif k == "crashin":
+            # write-level crash inside a state-machine call of op[1]: the model accepts the
+            # reloaded dump + resync outcome iff they match "call did not happen" or "call
+            # completed" (Exec.TCrashIn); a disabled call (script replay) is a no-op
+            ex = st.get("extra", {})
+            if res == "no_pending":
+                t = "TSkip"
+            else:
+                if not with_cut:
+                    reason = "crashin"
+                    break
+                rel = (ex.get("reloaded") or {}).get(op[1])
+                if ex.get("err_a") or ex.get("err_b") or not rel or res != "ok":
+                    reason = "crashin error"
+                    break
+                mop = {"sign": "OSign", "revoke": "ORevoke", "deliver": "ODeliver"}[op[2]]
+                t = "TCrashIn (%s %s) %s %s %s %s" % (
+                    mop, pb(op[1]), pb(op[1]), obs_term(rel, op[1]),
+                    clist([cN(KIND[x]) for x in ex.get("sync_a", [])]),
+                    clist([cN(KIND[x]) for x in ex.get("sync_b", [])]))
         else:
             reason = "unknown op %s" % k
             break
